@@ -51,8 +51,10 @@ def writesOk : Item → Bool
 /-- Diagnostic owed to an entry (none for a broken pipe). -/
 def diagOf (c : Cfg) : Item → Option Diag
   | .walkErr => some .walk
-  | .file id .err _ => if c.mode == .search then some (.file id) else none
-  | .file id .pipe _ => if c.mode == .search && c.parallel then some (.file id) else none
+  | .file id .err wr =>
+    if c.mode == .search && !(c.parallel && wr == .pipe) then some (.file id) else none
+  | .file id .pipe wr =>
+    if c.mode == .search && c.parallel && wr != .pipe then some (.file id) else none
   | .file id (.ok _) .err => if c.mode == .search && c.parallel then some (.write id) else none
   | _ => none
 
@@ -61,6 +63,13 @@ def okId (c : Cfg) : Item → Option Nat
   | .file id (.ok _) _ => some id
   | .file id _ _ => if c.mode == .files then some id else none
   | _ => none
+
+def isOk : Item → Bool
+  | .file _ (.ok _) _ => true
+  | _ => false
+
+/-- The summary owed: how many files were searched successfully, how many of them matched. -/
+def specStats (all : List Item) : Stats := ⟨all.countP isOk, all.countP isMatch⟩
 
 /-! ### Schedules of the parallel drivers -/
 
